@@ -25,6 +25,15 @@ def is_call(n, method=None, recv=None, qual=None):
     return True
 
 
+def as_assign(n):
+    """(lhs, rhs) of a built-in or class-type (operator=) assignment node, else None"""
+    if n.get('k') == 'bin' and n.get('op') == '=':
+        return n['l'], n['r']
+    if n.get('k') == 'call' and n.get('op') == '=' and n.get('recv') is not None and len(n.get('a', [])) == 1:
+        return n['recv'], n['a'][0]
+    return None
+
+
 def ret_value(ret):
     """literal value of a return statement: True/False/int/enum-name or None"""
     e = see_through(ret.get('e')) if ret else None
